@@ -1384,6 +1384,12 @@ class _Spline(_Algorithm):
             for previous_segment, next_segment in zip(indices[1::2], indices[2::2]):
                 index = np.argmin(y[previous_segment:next_segment + 1]) + previous_segment
                 w[index] = 1 - p
+            if np.count_nonzero(w) < diff_order:
+                # the penalized system is singular without enough non-zero weights
+                raise ValueError(
+                    'not enough regions between flat segments were found to determine the '
+                    'weights; decrease half_window or use a value of p greater than 0'
+                )
 
             # have to invert the weight ordering the matching the original input y ordering
             # since it will be sorted within _setup_spline
